@@ -1,15 +1,17 @@
 (* streams para-wrap / doc-wrap / control-wrap (C07): the model of the wrap-and-sort
    reformatting (coq/model/Deb822Wrap.v) on the same cases as harness/src/s_wrap.rs.
-   VERIF_C07_MODEL = fixed (default) | shipped | six 0/1 flags in the order of Deb822Wrap.variant *)
+   VERIF_C07_MODEL = fixed (default) | shipped | eight 0/1 flags in the order of Deb822Wrap.variant
+   (six flags: the first six, the last two -- C07-21, C07-22 -- off; 11111100 = /repo 5517d72) *)
 open Util
 open Base
 
 let variant : Deb822Wrap.variant =
   match Sys.getenv_opt "VERIF_C07_MODEL" with
   | Some "shipped" -> Deb822Wrap.shipped
-  | Some s when S.length s = 6 && S.for_all (fun c -> c = '0' || c = '1') s ->
-    let b i = s.[i] = '1' in
-    { Deb822Wrap.v_para_nl = b 0; v_doc_lines = b 1; v_fmt_lines = b 2; v_hash = b 3; v_terminate = b 4; v_typo = b 5 }
+  | Some s when (S.length s = 6 || S.length s = 8) && S.for_all (fun c -> c = '0' || c = '1') s ->
+    let b i = i < S.length s && s.[i] = '1' in
+    { Deb822Wrap.v_para_nl = b 0; v_doc_lines = b 1; v_fmt_lines = b 2; v_hash = b 3; v_terminate = b 4; v_typo = b 5;
+      v_upl_hash = b 6; v_rel_keep = b 7 }
   | _ -> Deb822Wrap.fixed
 
 exception Stop of string
